@@ -68,6 +68,11 @@ CLAIMED = {
    text="Lean theorems at table level (any number of rows and columns): one ballot per distinct pattern of the selected columns in column order (patterns pairwise distinct, each the pattern of some row and vice versa), weight = number of rows with the pattern, total weight = number of rows (partition lemma), the documented errors for empty data / blank id / duplicate id, Scottish first-row check. Correspondence: the harness writes real CSV files (delimiters, quoting, names with commas/quotes/spaces, id and weight columns anywhere, any subset/order of rank_cols, repeated and short rows) and real Scottish files, loads them with the implementation and gives the intended table to the model; monitors recompute pattern weights and voter sets; to_csv output is re-read with csv.reader.",
    note="Trusted: Lean kernel + standard axioms; pandas.read_csv / groupby(dropna=False) / csv module / file system are modelled by contract. PARTIAL: the Scottish parser's positive path (metadata and ballots with multiplicities) and to_csv rows are carried by correspondence + monitors, not by theorems; the summed-weight-column variant of the weight theorem is not stated. Repaired defect F-C18 (fix: commit e8e3349).",
    ref="DESIGN.md §4 C18"),
+
+ "C15": dict(
+   text="Lean theorems for every number of candidates: a normalised interval consists of the positive supports divided by their sum (sums to one, zero-support candidates set aside, entries positive); every table of the form w/Z sums to one, in particular the name-BT and slate-BT tables; the pair-sum product is permutation invariant and the code's numerator prod x_i^(m-1-i) equals the defining pairwise product prod_{i<j} x_i/(x_i+x_j) times that constant, so the normalised table is the documented one. Correspondence: interval, zero_cands, combine_preference_intervals, pdfs_by_bloc and ballot_type_pdf against the exact rational tables of the model (relative 1e-9) on the exact binary inputs; monitors evaluate the defining formulas independently.",
+   note="Trusted: Lean kernel + standard axioms; float arithmetic compared with tolerance. PARTIAL: the combine theorem (each interval multiplied by its cohesion share) and the slate-BT exponent formula are definitional in the model and carried by correspondence + the independent monitor, not stated as separate theorems.",
+   ref="DESIGN.md §4 C15"),
 }
 TECH = "Lean 4 kernel-checked theorems over a hand-written executable model + differential correspondence check of the model against /repo/src + independent Python monitors"
 
